@@ -26,11 +26,11 @@ PROP = 'C04'
 THEOREMS = ['C04_trace', 'C04_terminates', 'C04_const', 'C04_sum', 'C04_fixed_len', 'C04_edit_distance', 'C04_string',
             'C04_lists', 'C04_lists_trace', 'C04_collection', 'C04_bracket_lo', 'C04_bracket_hi', 'C04_bracket_matcher',
             'C04_matcher', 'C04_multiset', 'C04_docs', 'C04_docs_trace', 'C04_guard_bound_no_null', 'C04_guard_bound_default_lists',
-            'C04_docs_none', 'C04_guard_refuted', 'C04_search']
-MODELS = ['theories/MachineSpec.vo', 'theories/MachineGuardSpec.vo', 'theories/MachineModel.vo']
+            'C04_docs_none', 'C04_guard_refuted', 'C04_search', 'C04_plist_root']
+MODELS = ['theories/MachineSpec.vo', 'theories/MachineGuardSpec.vo', 'theories/MachineModel.vo', 'theories/MachinePlist.vo']
 HEADER = ('From Coq Require Import ZArith List Bool.\nRequire Import GT.PyBase GT.Data GT.MachineSpec GT.MachineGuardSpec.\n'
           'Import ListNotations.\nOpen Scope Z_scope.\n')
-MODEL_HEADER = 'Require Import GT.MachineModel.\n'
+MODEL_HEADER = 'Require Import GT.MachineModel GT.MachinePlist.\n'
 MODELLED = ['ConstantCostEdit (Match/Replace/Remove/Insert)', 'KeyValuePairEdit (sum combinator; XMLElementEdit, DataClassEdit, '
             'PyObjEdit are the same combinator)', 'repeat_until_tightened', 'FixedLengthSequenceEdit', 'EditDistance',
             'StringEdit', 'EditCollection / FixedKeyDictNodeEdit (children\'s initial upper bounds within cost_upper_bound: proved for '
@@ -38,6 +38,7 @@ MODELLED = ['ConstantCostEdit (Match/Replace/Remove/Insert)', 'KeyValuePairEdit 
             'otherwise, C04_guard_refuted = open finding D41)',
             'WeightedBipartiteMatcher (make_distinct and the assignment solver as oracles, all answers)',
             'MultiSetEdit over multisets without repeated elements', 'Edge (pure delegation)',
+            'the EditCollection of two Apple plist documents (PLISTNode.edits: [Match, root edit]; C04_plist_root)',
             'IterativeTighteningSearch (C04_search: contract of the search model of SearchModel.v over sound, strictly shrinking '
             'items; the model is tied to search.py by C17\'s trace correspondence)']
 TRACE_ONLY = ['MultiSetEdit / WeightedBipartiteMatcher on directly built MultiSetNodes with repeated elements (ext stream; D36)',
@@ -224,6 +225,27 @@ def _build(item):
         # directly built MultiSetNodes ({"__mset__": [...]}, elements may repeat), alone or nested: trace-only stream
         opts = g.BuildOptions(**sl.options_kwargs(*item['opts']))
         return sl.build_ext(item['a'], opts), sl.build_ext(item['b'], opts)
+    if item.get('plist'):
+        # Apple plist documents: PLISTNode(root), whose edits() is an EditCollection over [Match(self, node, 0), root edit]
+        # 'wrap': the JSON-path tree wrapped directly; 'file': written with plistlib and loaded by graphtage.plist.build_tree
+        from graphtage import plist as gplist
+        opts = g.BuildOptions(**sl.options_kwargs(*item['opts']))
+        if item['plist'] == 'file':
+            import plistlib
+            import tempfile
+            out = []
+            for doc in (item['a'], item['b']):
+                tmpd = os.path.join(common.VERIF, '.work', 'C04-plist-tmp')        # never /tmp
+                os.makedirs(tmpd, exist_ok=True)
+                with tempfile.NamedTemporaryFile(suffix='.plist', delete=False, dir=tmpd) as f:
+                    f.write(plistlib.dumps(doc, sort_keys=False))
+                try:
+                    out.append(gplist.build_tree(f.name, opts))
+                finally:
+                    os.unlink(f.name)
+            return out[0], out[1]
+        from graphtage import json as gjson
+        return gplist.PLISTNode(gjson.build_tree(item['a'], opts)), gplist.PLISTNode(gjson.build_tree(item['b'], opts))
     a, b, _ = sl.build_pair(item)
     if item.get('kvp'):
         ka, kb, ake = item['kvp']
@@ -247,7 +269,10 @@ def impl_trace(item):
     try:
         a, b = _build(item) if mode != 'sed' else (None, None)
         try:
-            ta, tb = (sl.ser_tree(a), sl.ser_tree(b)) if mode != 'sed' and not item.get('ext') else (None, None)
+            if item.get('plist'):
+                ta, tb = sl.ser_tree(a.root), sl.ser_tree(b.root)        # the case carries the two ROOT trees
+            else:
+                ta, tb = (sl.ser_tree(a), sl.ser_tree(b)) if mode != 'sed' and not item.get('ext') else (None, None)
         except ValueError:
             ta = tb = None
         if mode == 'active':
@@ -531,6 +556,58 @@ def gen_mapping_pair(rng, depth):
     return a, mutate_mapping(rng, a)
 
 
+PL_ALPHA = 'abc'
+
+
+def pl_str(rng, lo, hi):
+    return ''.join(rng.choice(PL_ALPHA) for _ in range(rng.randint(lo, hi)))
+
+
+def gen_plist_value(rng, depth):
+    """plist values: no null; strings of several characters, numbers, booleans, nested dictionaries and arrays"""
+    r = rng.random()
+    if depth <= 0 or r < 0.45:
+        return rng.choice([pl_str(rng, 0, 6), pl_str(rng, 3, 6), rng.choice([0, 1, 7, 98, 12345]), True, False, 1.5])
+    if r < 0.75:
+        return {pl_str(rng, 1, 5): gen_plist_value(rng, depth - 1) for _ in range(rng.randint(0, 3))}
+    return [gen_plist_value(rng, depth - 1) for _ in range(rng.randint(0, 3))]
+
+
+def gen_plist_pair(rng):
+    """root dictionaries with different key sets: a renamed key (near copy of the key, changed value), the rest kept or
+    slightly changed; the root edit under auto/match is a MultiSetEdit that has to pair the renamed entries"""
+    a = {}
+    while len(a) < rng.randint(2, 4):
+        a[pl_str(rng, 2, 5)] = gen_plist_value(rng, 2)
+    b = {}
+    keys = list(a)
+    renamed = set(rng.sample(keys, rng.randint(1, min(2, len(keys)))))
+    for k in keys:
+        v = a[k]
+        if k in renamed:
+            k2 = near_tie(rng, k) if rng.random() < 0.8 else pl_str(rng, 2, 5)
+            v2 = near_tie(rng, v) if isinstance(v, (str, list)) and rng.random() < 0.8 else (gen_plist_value(rng, 1) if rng.random() < 0.3 else v)
+            b[k2] = v2
+        elif rng.random() < 0.15:
+            continue
+        else:
+            b[k] = pl_clean(sl.mutate(rng, v)) if rng.random() < 0.25 else v
+    if rng.random() < 0.2:
+        b[pl_str(rng, 2, 5)] = gen_plist_value(rng, 1)
+    return pl_clean(a), pl_clean(b)
+
+
+def pl_clean(v):
+    """plist has no null (and plistlib wants string keys)"""
+    if v is None:
+        return 0
+    if isinstance(v, list):
+        return [pl_clean(x) for x in v]
+    if isinstance(v, dict):
+        return {str(k): pl_clean(x) for k, x in v.items()}
+    return v
+
+
 def gen_items(tier, rng):
     items = []
     path = os.path.join(common.VERIF, 'corpus', 'C04.jsonl')
@@ -583,6 +660,16 @@ def gen_items(tier, rng):
     for k, (a, b) in enumerate(ext_pairs):
         items.append({'a': a, 'b': b, 'opts': list(sl.OPTION_SETS[k % 9]), 'mode': 'passive' if k % 4 == 3 else 'active',
                       'ext': True})
+    n_plist = 110 if q else 1500
+    for k in range(n_plist):           # Apple plist documents: EditCollection over [Match, root edit] (PLISTNode.edits)
+        a, b = gen_plist_pair(rng)
+        if k % 9 == 8:
+            a, b = pl_clean(gen_mapping(rng, 2)), None
+            if not isinstance(a, dict):
+                a = {'k': a}
+            b = pl_clean(mutate_mapping(rng, a))
+        items.append({'a': a, 'b': b, 'opts': [['auto', 'match', 'auto', 'none'][k % 4], ['on', 'off', 'same'][(k // 4) % 3]],
+                      'mode': 'passive' if k % 6 == 5 else 'active', 'plist': 'file' if k % 5 == 4 else 'wrap'})
     n_budget = 45 if q else 600
     for k in range(n_budget):          # around the budget guard of FixedKeyDictNodeEdit (C04_docs_none / open finding D41):
         # fixed-length alignments of short scalars with nulls below a mapping, dictionary strategy none
@@ -668,20 +755,35 @@ def evaluate(run, wd, st, items, tag='cases'):
             c = o['objs'][0][0]
             stats['root_classes'][c] = stats['root_classes'].get(c, 0) + 1
     header = HEADER
-    evals = ['bad_cases (fun c => holds_C04 (cc_case c))']
-    evals += [f'bad_cases (fun c => negb ({kf} (cc_case c)))' for _, kf, _ in KF_CLASSES]
     if st['models_ok']:
         header += MODEL_HEADER
-        evals += ['bad_cases corr_C04', 'bad_cases (fun c => negb (modelled_C04 c))']
     else:
         header += 'Record ccase := { cc_case : case; cc_root : bool }.\n'
     terms = [ccase_term(o) for _, o in ok]
-    bad, err = eval_sized(wd, tag, header, terms, evals)
-    if err:
-        run.violation({'kind': 'case-evaluation-failed', 'error': err}, no_input=True)
-        return ok, [], [[] for _ in KF_CLASSES], [], [], stats
     nk = len(KF_CLASSES)
+    bad = [[] for _ in range(3 + nk)]
+    # plist cases (the case carries the two root trees, the root object is the EditCollection of the two PLISTNodes) are
+    # compared with the plist-root model, everything else with initO
+    groups = [('', [j for j, (it, _) in enumerate(ok) if not it.get('plist')], 'corr_C04', 'modelled_C04'),
+              ('_pl', [j for j, (it, _) in enumerate(ok) if it.get('plist')], 'corr_plist_C04', 'modelled_plist_C04')]
+    for suffix, idx, corr_fn, mod_fn in groups:
+        if not idx:
+            continue
+        evals = ['bad_cases (fun c => holds_C04 (cc_case c))']
+        evals += [f'bad_cases (fun c => negb ({kf} (cc_case c)))' for _, kf, _ in KF_CLASSES]
+        if st['models_ok']:
+            evals += [f'bad_cases {corr_fn}', f'bad_cases (fun c => negb ({mod_fn} c))']
+        b, err = eval_sized(wd, tag + suffix, header, [terms[j] for j in idx], evals)
+        if err:
+            run.violation({'kind': 'case-evaluation-failed', 'error': err}, no_input=True)
+            return ok, [], [[] for _ in KF_CLASSES], [], [], stats
+        for k, lst in enumerate(b):
+            bad[k] += [idx[j] for j in lst]
+    for lst in bad:
+        lst.sort()
     bad_corr, modelled = (bad[1 + nk], bad[2 + nk]) if st['models_ok'] else ([], [])
+    stats['plist_cases'] = len(groups[1][1])
+    stats['plist_modelled'] = len([j for j in modelled if ok[j][0].get('plist')])
     return ok, bad[0], bad[1:1 + nk], bad_corr, modelled, stats
 
 
@@ -780,6 +882,8 @@ def check(tier, seed):
         run.cov['ext_multiset_cases'] = stats['ext_cases']
         run.cov['ext_runs_cut_by_guard'] = stats['ext_timeouts']
         run.cov['known_finding_cases'] = {k: len(v) for k, v in reported.items()}
+        run.cov['plist_root_cases'] = stats.get('plist_cases', 0)
+        run.cov['plist_root_traces_validated_against_model'] = stats.get('plist_modelled', 0)
         run.cov['modelled_classes'] = MODELLED
         run.cov['trace_only_classes'] = TRACE_ONLY
         if (st['broken'] or bad_corr) and not run.violations:
@@ -803,7 +907,9 @@ def check(tier, seed):
         run.cov['rule'] = ('pairs of JSON documents built by graphtage.json.build_tree: corpus; fixed pairs; list/string documents '
                            '(nested lists of scalars and strings, near-tie mutations in several places, deep chains with siblings) '
                            'under list edits on/off/off-when-same-length; arbitrary documents under the 9 option sets; key/value '
-                           'pairs as roots; short-scalar/null lists below FixedKeyDictNodes around the cost_upper_bound guard (D41); '
+                           'pairs as roots; Apple plist documents (PLISTNode around generated mapping roots with renamed keys and '
+                           'changed values, wrapped directly or written with plistlib and loaded by graphtage.plist.build_tree); '
+                           'short-scalar/null lists below FixedKeyDictNodes around the cost_upper_bound guard (D41); '
                            'IterativeTighteningSearch/PossibleEdits over alternative targets.  Every Bounded object '
                            'created is monitored (classes wrapped from outside), driven to completion and queried; active observer = '
                            'bounds() before and after every outermost tighten_bounds() of every object, passive observer = TreeNode.diff '
@@ -819,6 +925,8 @@ def check(tier, seed):
         return run.finish()
     finally:
         wd.cleanup()
+        import shutil
+        shutil.rmtree(os.path.join(common.VERIF, '.work', 'C04-plist-tmp'), ignore_errors=True)
 
 
 def replay(path):
